@@ -405,6 +405,34 @@ func (r *e1run) checkC04(si, k int) {
 	} else if len(pl.PreloadHints) != 0 || len(pl.Parts) != 0 {
 		r.add("C04", "unexpected-ll-tags", "stream %s lists parts or preload hints in a non-Low-Latency variant", s.id)
 	}
+	if ll && (r.props == nil || r.props["C04"]) {
+		// the same history seen through Playlist Delta Updates: a media sequence number denotes the same segment there
+		for _, skip := range []string{"YES", "v2"} {
+			rr := r.safeGet(mediaPlaylistPath(s.id) + "?_HLS_skip=" + skip)
+			if rr.Status != 200 {
+				continue
+			}
+			dp, _, _ := m3u.Parse(rr.Body.Bytes(), m3u.Options{})
+			if dp == nil {
+				continue
+			}
+			skipped := 0
+			if dp.Skip != nil {
+				skipped = *dp.Skip
+			}
+			if dp.MediaSequence != pl.MediaSequence {
+				r.add("C04", "delta-media-sequence", "stream %s: a delta update (_HLS_skip=%s) carries EXT-X-MEDIA-SEQUENCE %d, the full playlist of the same instant %d (write %d)", s.id, skip, dp.MediaSequence, pl.MediaSequence, w)
+			}
+			for i, seg := range dp.Segments {
+				msn := dp.MediaSequence + skipped + i
+				j := msn - pl.MediaSequence
+				if j < 0 || j >= len(pl.Segments) || canon(stripQuery(pl.Segments[j].URI)) != canon(stripQuery(seg.URI)) || pl.Segments[j].Gap != seg.Gap || pl.Segments[j].DurationText != seg.DurationText {
+					r.add("C04", "delta-msn-denotes-other-segment", "stream %s: in a delta update (_HLS_skip=%s, MEDIA-SEQUENCE %d, SKIPPED-SEGMENTS %d) media sequence number %d denotes %s, in the full playlist of the same instant it does not (write %d)", s.id, skip, dp.MediaSequence, skipped, msn, canon(seg.URI), w)
+					break
+				}
+			}
+		}
+	}
 	prev := r.prevPL(si, k)
 	if prev == nil {
 		return
